@@ -15,7 +15,8 @@ RULE = ("histories and configurations of C03 (Hypothesis histories incl. rejecte
         "every pool word and every valid resident block == its backing block, memory table current; WB: every pool word is "
         "either resident with the logical value or its backing word equals the logical value (eviction never loses a write); "
         "the memory table always shows the backing store. non-trivial = >=1 eviction of a block that was written (WB) / a "
-        "write hit followed by a read (WT); distinct = hash(history)")
+        "write hit followed by a read (WT); distinct = hash(history)"
+        ' Histories contain reset() of the memory system in mid-history.')
 ASSUMPTIONS = ["resident blocks are read from the public cache_repr(); backing memory through its read_word/wordwise_repr"]
 
 
